@@ -1,5 +1,6 @@
 import Model.Mux
 import Model.MuxRx
+import Model.MuxOwn
 import Driver.Util
 namespace Driver.C01
 open Util Mux
@@ -57,6 +58,204 @@ def rdAnswer (tmo k : String) (items : List String) : String :=
     let e := match x.2.1 with | .ok => "ok" | .timeout => "tmo" | .eof => "eof"
     s!"{x.1.length}:{e}:{Rx.hex32 (Rx.fnv32 x.1)}:{(Rx.bytes x.2.2).length}"
   | _, _, _ => "bad-op"
+
+/-! ### `dr`: the connection's own requests (heartbeat OPTIONS, USE, PREPARE, REGISTER) next to user requests, and
+    transports whose Write returns late - event-ordered scripts run on the machine `Model/MuxOwn.lean` (configuration
+    `Cfg.code`: the code that exists). Script grammar: harness/muxrun/own.go. -/
+
+structure OCall where
+  typ : Char            -- q user | u USE | p PREPARE | g REGISTER | h heartbeat
+  L : Nat               -- body length of the planned RESULT frame (user calls)
+  sentB : Nat           -- bytes of its answer written so far
+  held : Bool           -- its Write has not returned yet
+  due : Bool            -- its whole answer is in the receive loop's hands, waiting for the writer to come back
+  answered : Bool
+
+structure OS where
+  st : MuxOwn.St
+  hl : Nat
+  cap : Nat
+  hb : Bool
+  calls : List OCall
+  cur : Option Nat
+  out : List String
+  term : Bool
+  bad : Option String
+
+def OS.act (os : OS) (a : MuxOwn.Act) (what : String) : OS :=
+  if os.bad.isSome then os else
+  match MuxOwn.step MuxOwn.Cfg.code os.st a with
+  | some st' => { os with st := st' }
+  | none => { os with bad := some s!"model-stuck:{what}" }
+
+def OS.fail (os : OS) (m : String) : OS := if os.bad.isSome then os else { os with bad := some m }
+
+def OS.anyHeld (os : OS) : Bool := os.calls.any (·.held)
+
+def oWaiting (os : OS) : List Nat :=
+  (List.range os.calls.length).filterMap fun k =>
+    match os.st.pc (k + 1) with
+    | .flight _ true true true => some (k + 1)
+    | _ => none
+
+/-- once closeWithError has run every waiting call is handed its argument (or sees the connection's context) -/
+def OS.settle (os : OS) : OS :=
+  if os.st.closed.isSome then
+    { (oWaiting os).foldl (fun os c => os.act (.connDone c) "connDone") os with term := true }
+  else os
+
+def OS.start (os : OS) (typ : Char) (L : Nat) (held : Bool) : OS :=
+  if os.anyHeld ∨ os.cur.isSome then os.fail "bad-op" else
+  let c := os.calls.length + 1
+  if c + 1 ≥ os.cap then os.fail "bad-op" else
+  let w : MuxOwn.Who := if typ = 'q' then .user else if typ = 'h' then .heartbeat else .internal
+  let os := ((os.act (.reserve c c w) "reserve").act (.register c) "register").act (.write c) "write"
+  let os := if held then os else os.act (.writeReturned c) "writeReturned"
+  { os with calls := os.calls ++ [{ typ := typ, L := L, sentB := 0, held := held, due := false, answered := false }] }
+
+/-- the answer letter the request of a call of this type expects -/
+def expected (typ : Char) : Char :=
+  if typ = 'h' then 'S' else if typ = 'u' then 'K' else if typ = 'p' then 'P' else if typ = 'g' then 'Y' else 'V'
+
+def kindOf (typ k : Char) : Nat := if k = 'E' then 1 else if k = expected typ then 0 else 2
+
+/-- the whole answer of call i is with the receive loop -/
+def OS.complete (os : OS) (i : Nat) (c : OCall) : OS :=
+  if c.held then { os with calls := os.calls.set (i - 1) { c with due := true } }
+  else
+    let os := os.act (.deliver i) "deliver"
+    let os := if c.typ = 'h' then os.act (.hbReact i) "hbReact" else os
+    os.settle
+
+def OS.pieces (os : OS) (i : Nat) (n : Option Nat) : OS :=
+  match os.calls[i - 1]? with
+  | none => os.fail "bad-op"
+  | some c =>
+    if i = 0 ∨ c.typ ≠ 'q' ∨ (os.cur.isSome ∧ os.cur ≠ some i) ∨ (os.anyHeld ∧ ¬ c.held) then os.fail "bad-op" else
+    let total := os.hl + c.L
+    let k := match n with | some k => k | none => total - c.sentB
+    let after := c.sentB + k
+    if k = 0 ∨ after > total then os.fail "bad-op" else
+    let os := if c.answered then os else os.act (.answer i 0 i) "answer"
+    let c := { c with sentB := after, answered := true }
+    let os := { os with calls := os.calls.set (i - 1) c, cur := if after = total then none else some i }
+    if after = total then os.complete i c else os
+
+def OS.whole (os : OS) (i : Nat) (k : Char) (code : Nat) : OS :=
+  match os.calls[i - 1]? with
+  | none => os.fail "bad-op"
+  | some c =>
+    if i = 0 ∨ c.answered ∨ os.cur.isSome ∨ (os.anyHeld ∧ ¬ c.held) then os.fail "bad-op" else
+    let os := os.act (.answer i (kindOf c.typ k) (i + 1000 * code)) "answer"
+    let c := { c with answered := true, sentB := 1 }
+    let os := { os with calls := os.calls.set (i - 1) c }
+    os.complete i c
+
+def OS.step (os : OS) (w : String) : OS :=
+  if os.bad.isSome then os else
+  if os.term then os.fail "bad-op" else
+  let held := w.startsWith "!"
+  let w := if held then String.ofList (w.toList.drop 1) else w
+  match w.toList with
+  | 'q' :: r => match (String.ofList r).toNat? with
+      | some L => os.start 'q' L held
+      | none => os.fail "bad-op"
+  | ['u'] => if held then os.fail "bad-op" else os.start 'u' 0 false
+  | ['p'] => if held then os.fail "bad-op" else os.start 'p' 0 false
+  | ['g'] => if held then os.fail "bad-op" else os.start 'g' 0 false
+  | ['h'] => if held ∨ ¬ os.hb then os.fail "bad-op" else os.start 'h' 0 false
+  | 'd' :: r =>
+      if held then os.fail "bad-op" else
+      match (String.ofList r).splitOn "." with
+      | [a] => match a.toNat? with
+        | some i => os.pieces i none
+        | none => os.fail "bad-op"
+      | [a, b] => match a.toNat?, b.toNat? with
+        | some i, some n => os.pieces i (some n)
+        | _, _ => os.fail "bad-op"
+      | _ => os.fail "bad-op"
+  | 'A' :: r =>
+      if held then os.fail "bad-op" else
+      match (String.ofList r).splitOn ":" with
+      | [a, b] => match a.toNat?, b.toList with
+        | some i, [k] => if k = 'E' then os.fail "bad-op" else os.whole i k 0
+        | some i, 'E' :: cs => match (String.ofList cs).toNat? with
+          | some code => os.whole i 'E' code
+          | none => os.fail "bad-op"
+        | _, _ => os.fail "bad-op"
+      | _ => os.fail "bad-op"
+  | 'w' :: r =>
+      if held then os.fail "bad-op" else
+      match (String.ofList r).toNat? with
+      | some i =>
+        match os.calls[i - 1]? with
+        | none => os.fail "bad-op"
+        | some c =>
+          if i = 0 then os.fail "bad-op" else
+          if ¬ c.held then os else
+          let os := os.act (.writeReturned i) "writeReturned"
+          let c' := { c with held := false, due := false }
+          let os := { os with calls := os.calls.set (i - 1) c' }
+          if c.due then os.complete i c' else os
+      | none => os.fail "bad-op"
+  | 'c' :: r =>
+      if held then os.fail "bad-op" else
+      match (String.ofList r).toNat? with
+      | some i =>
+        match os.calls[i - 1]? with
+        | none => os.fail "bad-op"
+        | some c =>
+          if i = 0 ∨ c.typ ≠ 'q' ∨ c.held ∨ os.cur = some i then os.fail "bad-op" else
+          match os.st.pc i with
+          | .flight _ true true true => os.act (.cancel i) "cancel"
+          | _ => os
+      | none => os.fail "bad-op"
+  | 'v' :: r => if held ∨ os.cur.isSome ∨ os.anyHeld ∨ (String.ofList r).toNat?.isNone then os.fail "bad-op" else os.act .event "event"
+  | 'x' :: r => if held ∨ os.cur.isSome ∨ os.anyHeld ∨ (String.ofList r).toNat?.isNone then os.fail "bad-op"
+                else os.act (.stray (os.calls.length + 1)) "stray"
+  | ['a'] =>
+      if held ∨ os.hb then os.fail "bad-op" else
+      let n := ((List.range os.calls.length).filter fun k => (os.st.owner (k + 1)).isSome).length
+      { os with out := s!"a={n}" :: os.out }
+  | ['k'] => if held then os.fail "bad-op" else (os.act .close "close").settle
+  | ['z'] => if held then os.fail "bad-op" else (os.act .close "close").settle
+  | _ => os.fail "bad-op"
+
+def OS.outcome (os : OS) (i : Nat) (c : OCall) : String :=
+  if c.typ = 'h' then "-" else
+  match os.st.pc i with
+  | .done (.resp f) =>
+      if f.sid ≠ i then "F!foreign" else
+      if c.typ = 'q' then "R"      -- (Conn.exec hands a user call the frame whatever its kind)
+      else if f.kind = 0 then "K"
+      else if f.kind = 1 ∧ c.typ ≠ 'g' then "E"
+      else "P"
+  | .done .ctxErr => "C"
+  | .done (.connErr .plain) => "X"
+  | .done (.connErr (.frame _)) => "F!foreign"
+  | .done .timeout => "T"
+  | .done .writeErr => "X"
+  | .flight _ _ _ _ => "W"
+  | .idle => "?"
+
+def drAnswer (proto wr hb : String) (steps : List String) : String :=
+  match proto.toNat?, wr.toNat?, hb.toNat? with
+  | some p, some _, some h =>
+    if p < 2 ∨ p > 4 ∨ h > 1 then "bad-op" else
+    let cap := if p ≤ 2 then 128 else 32768
+    let os0 : OS := { st := MuxOwn.init cap, hl := if p ≤ 2 then 8 else 9, cap := cap, hb := h = 1, calls := [], cur := none,
+                      out := [], term := false, bad := none }
+    let os := steps.foldl OS.step os0
+    match os.bad with
+    | some b => b
+    | none =>
+      let outs := (List.range os.calls.length).map fun k =>
+        match os.calls[k]? with
+        | some c => os.outcome (k + 1) c
+        | none => "?"
+      " ".intercalate (os.out.reverse ++ [";"] ++ outs ++ ["|", if os.st.closed.isSome then "closed" else "open"])
+  | _, _, _ => "bad-op"
+
 
 /-- the connection on which token `t` was requested (tokens are unique per run) -/
 def connOfToken (s : S) (t : Nat) : Nat :=
@@ -117,6 +316,9 @@ def step (s : S) (ws : List String) : S × String :=
   | "rxo" :: proto :: tmo :: waiting :: gone :: items => (s, rxAnswer proto tmo waiting gone items)
   -- one Conn.Read: `rd` = enough bytes and fewer than five expiries before the k-th byte (theorem C01_rx_read_ok:
   -- exactly the next k bytes), `rdo` = short stream / gives up: model = code as it is
+  -- driver-originated requests next to user requests / Write returning late (theorems C01_no_foreign_frame,
+  -- C01_registered_before_written, C01_no_response_lost): the outcomes the machine MuxOwn (code configuration) allows
+  | "dr" :: proto :: wr :: hb :: steps => (s, drAnswer proto wr hb steps)
   | "rd" :: tmo :: k :: items => (s, rdAnswer tmo k items)
   | "rdo" :: tmo :: k :: items => (s, rdAnswer tmo k items)
   | _ => (s, "bad-op")
